@@ -1,6 +1,8 @@
 package props
 
 import (
+	"errors"
+	"math"
 	"bytes"
 	"context"
 	"encoding/json"
@@ -88,6 +90,12 @@ func jsonEquivalent(a, b []byte) bool {
 	}
 	return reflect.DeepEqual(x, y)
 }
+
+type c19Unencodable struct{ v any }
+
+type c19FailingMarshaler struct{}
+
+func (c19FailingMarshaler) MarshalJSON() ([]byte, error) { return nil, errors.New("refuses to be encoded") }
 
 func runC19(r *Run) {
 	t := r.Tape
@@ -187,6 +195,12 @@ func runC19(r *Run) {
 			}
 		}
 		for n := t.Draw(4); n > 0; n-- {
+			if t.Pct(20) {
+				// a value encoding/json cannot encode: Write must fail and send nothing
+				bad := []any{math.NaN(), map[string]any{"deep": []any{1, "x", math.Inf(1)}}, make(chan int), []any{"a", func() {}}, c19FailingMarshaler{}}[t.Draw(5)]
+				cs.writes = append(cs.writes, c19Unencodable{bad})
+				continue
+			}
 			cs.writes = append(cs.writes, genJSONValue(t, 3, false))
 		}
 		rc.Lib.In().RChunk = t.Weighted(4, 1, 2, 2, 2)
@@ -262,6 +276,14 @@ func runC19(r *Run) {
 			// library-side writes, one value per message
 			for i, v := range cs.writes {
 				r.S.Park("a." + name + ".w")
+				if u, bad := v.(c19Unencodable); bad {
+					if err := wsjson.Write(bg, c, u.v); err == nil {
+						r.Violate("unencodable-value-written", "write", "wsjson.Write of a value that cannot be encoded (%T) returned nil", u.v)
+						return
+					}
+					r.S.Count("probe.unencodable-write")
+					continue
+				}
 				if err := wsjson.Write(bg, c, v); err != nil {
 					r.Violate("write-error", "write", "wsjson.Write %d failed: %v", i, err)
 					return
@@ -314,12 +336,18 @@ func runC19(r *Run) {
 		last := cs.items[len(cs.items)-1]
 		readsOK := last.valid && !last.overLim
 		if readsOK {
-			if len(msgs) != len(cs.writes) {
-				r.Violate("message-count", sig, "conn %d: %d wsjson.Write calls produced %d messages", ci, len(cs.writes), len(msgs))
+			var good []any
+			for _, v := range cs.writes {
+				if _, bad := v.(c19Unencodable); !bad {
+					good = append(good, v)
+				}
+			}
+			if len(msgs) != len(good) {
+				r.Violate("message-count", sig, "conn %d: %d successful wsjson.Write calls (%d failed ones for values that cannot be encoded) produced %d messages", ci, len(good), len(cs.writes)-len(good), len(msgs))
 				return
 			}
 			for i, m := range msgs {
-				want, _ := json.Marshal(cs.writes[i])
+				want, _ := json.Marshal(good[i])
 				if m.Type != wsref.OpText {
 					r.Violate("not-a-text-message", sig, "conn %d: value %d was sent as message type %d", ci, i, m.Type)
 				}
